@@ -73,6 +73,12 @@ def run(tier, replay):
         for (_, p) in wit:
             n += 1
             jobs.append(sch.bjob("%s.%d" % (base, n), pub.get(base, base), rng.randrange(1, 2 ** 31), [S.plan(k0, p)]))
+            # all nuclear transitions of the path steered at once (all converted / all gammas / alternating): particle indices
+            # remembered across two transitions (angular-correlation blocks) are only all defined for some joint outcomes
+            for pat, tp in S.joint_outcome_tplans(k0, p).items():
+                if thorough or pat in ("all-K", "alt-K-gamma", "alt-gamma-K"):
+                    n += 1
+                    jobs.append(sch.bjob("%s.%d" % (base, n), pub.get(base, base), rng.randrange(1, 2 ** 31), [S.plan(k0, p)], tplan=tp))
     for name in catalogue.lis_background():
         for _ in range(30 if thorough else 5):
             n += 1
